@@ -8,7 +8,9 @@
 //   peaceman.ctf   one per connection created by a one-cell COMPDAT record
 //   peaceman.unit  deck value vs getSIDouble for every explicit COMPDAT item
 //   conns.seq      one per (history, report step): all COMPDAT/WPIMULT/WELOPEN records of
-//                  a well up to that step and the connection list the Schedule holds there
+//                  a well up to that step and the connection list the Schedule holds there;
+//                  also one per well of the "layered" decks (records K1 < K2 on columns whose
+//                  cells - permeability, DZ, NTG, corner-point geometry - differ by layer)
 // A small share of the lines is perturbed on purpose and must be answered `differs <field>`.
 #include "common/vh.hpp"
 
@@ -70,9 +72,43 @@ struct Scenario {
     std::vector<double> permx, permy, permz, ntg, poro;   // global index order, deck units (mD)
     std::vector<int> actnum;
     bool hasNtg;
+    // corner-point variant (layered scenarios only): COORD / ZCORN in deck units instead of DXV/DYV/DZV/TOPS
+    bool cpg = false;
+    std::vector<double> coord, zcorn;
     int gi(int i, int j, int k) const { return i + nx * (j + ny * k); }
+    // corner (a,b,c) in {0,1}^3 of cell (i,j,k) in deck units: the ZCORN value and the pillar's x, y at that depth
+    // (the definition of the corner-point format, evaluated in long double)
+    std::array<long double,3> corner(int i, int j, int k, int a, int b, int c) const {
+        const long double z = zcorn[(size_t) (2 * i + a) + (size_t) 2 * nx * ((2 * j + b) + (size_t) 2 * ny * (2 * k + c))];
+        const double* P = &coord[6 * ((size_t) (i + a) + (size_t) (nx + 1) * (j + b))];
+        const long double t = (z - P[2]) / ((long double) P[5] - P[2]);
+        return { P[0] + t * ((long double) P[3] - P[0]), P[1] + t * ((long double) P[4] - P[1]), z };
+    }
+    // cell extents in deck units, text-book definition: DX / DY = distance between the centres of the two X / Y faces,
+    // DZ = mean depth of the bottom face - mean depth of the top face
+    std::array<long double,3> dimsDeck(int i, int j, int k) const {
+        if (!cpg) return { dxv[i], dyv[j], dzv[k] };
+        auto centre = [&](int axis, int side) {
+            std::array<long double,3> m{ 0, 0, 0 };
+            for (int p = 0; p < 2; ++p) for (int q = 0; q < 2; ++q) {
+                const auto c = axis == 0 ? corner(i, j, k, side, p, q) : axis == 1 ? corner(i, j, k, p, side, q) : corner(i, j, k, p, q, side);
+                for (int d = 0; d < 3; ++d) m[d] += c[d] / 4;
+            }
+            return m;
+        };
+        std::array<long double,3> out;
+        for (int axis = 0; axis < 2; ++axis) {
+            const auto lo = centre(axis, 0), hi = centre(axis, 1);
+            out[axis] = sqrtl((hi[0] - lo[0]) * (hi[0] - lo[0]) + (hi[1] - lo[1]) * (hi[1] - lo[1]) + (hi[2] - lo[2]) * (hi[2] - lo[2]));
+        }
+        out[2] = centre(2, 1)[2] - centre(2, 0)[2];
+        return out;
+    }
     // SI estimates for input conditioning only
-    std::array<double,3> dimsSI(int i, int j, int k) const { return { dxv[i] * u.L, dyv[j] * u.L, dzv[k] * u.L }; }
+    std::array<double,3> dimsSI(int i, int j, int k) const {
+        const auto d = dimsDeck(i, j, k);
+        return { (double) d[0] * u.L, (double) d[1] * u.L, (double) d[2] * u.L };
+    }
 };
 
 Scenario makeScenario(vh::Rng& r, int maxn) {
@@ -108,8 +144,11 @@ std::string arr(const char* kw, const std::vector<double>& v) {
 std::string gridSection(const Scenario& s) {
     std::string d = "RUNSPEC\nDIMENS\n " + std::to_string(s.nx) + " " + std::to_string(s.ny) + " " + std::to_string(s.nz) + " /\nOIL\nWATER\n";
     d += std::string(s.u.name) + "\nSTART\n 1 'JAN' 2020 /\nGRID\n";
-    d += arr("DXV", s.dxv) + arr("DYV", s.dyv) + arr("DZV", s.dzv);
-    d += "TOPS\n " + std::to_string(s.nx * s.ny) + "*" + num(s.tops) + " /\n";
+    if (s.cpg) d += arr("COORD", s.coord) + arr("ZCORN", s.zcorn);
+    else {
+        d += arr("DXV", s.dxv) + arr("DYV", s.dyv) + arr("DZV", s.dzv);
+        d += "TOPS\n " + std::to_string(s.nx * s.ny) + "*" + num(s.tops) + " /\n";
+    }
     d += arr("PERMX", s.permx) + arr("PERMY", s.permy) + arr("PERMZ", s.permz) + arr("PORO", s.poro);
     if (s.hasNtg) d += arr("NTG", s.ntg);
     d += "ACTNUM\n";
@@ -610,6 +649,290 @@ bool selected(const std::array<std::optional<int>,5>& sel, const Snap& c) {
 
 std::string snapKey(const Snap& s) { return std::to_string(s.i) + "," + std::to_string(s.j) + "," + std::to_string(s.k); }
 
+
+// ---------------------------------------------------------------------------------------
+// records over several layers (K1 < K2) on columns whose cells differ from layer to layer
+
+// Scenario with 2..maxz layers; half of the decks are corner-point grids with fanning, sheared and jittered
+// pillars (DX, DY change with depth) and horizontal layer interfaces (so that every definition of a cell's
+// DX / DY - with or without the vertical component - agrees), the others DXV/DYV/DZV grids.
+Scenario makeLayeredScenario(vh::Rng& r, int maxz) {
+    Scenario s;
+    s.u = r.pick(UNITS);
+    s.nx = r.range(2, 3); s.ny = r.range(2, 3); s.nz = r.range(2, maxz);
+    for (int i = 0; i < s.nx; ++i) s.dxv.push_back(logU(r, 5, 300) / s.u.L);
+    for (int j = 0; j < s.ny; ++j) s.dyv.push_back(logU(r, 5, 300) / s.u.L);
+    for (int k = 0; k < s.nz; ++k) s.dzv.push_back(logU(r, 1, 50) / s.u.L);
+    s.tops = logU(r, 10, 3000) / s.u.L;
+    const int n = s.nx * s.ny * s.nz;
+    s.hasNtg = r.coin(4, 5);
+    const int permMode = (int) r.below(8);   // 0: isotropic, 1: layer cake (one triple per layer), else: per cell
+    std::vector<std::array<double,3>> layerPerm;
+    for (int k = 0; k < s.nz; ++k) layerPerm.push_back({ logU(r, 1e-3, 1e3), logU(r, 1e-3, 1e3), logU(r, 1e-3, 1e3) });
+    for (int g = 0; g < n; ++g) {
+        const int k = g / (s.nx * s.ny);
+        double kx = logU(r, 1e-3, 1e3), ky = logU(r, 1e-3, 1e3), kz = logU(r, 1e-3, 1e3);
+        if (permMode == 0) ky = kz = kx;
+        if (permMode == 1) { kx = layerPerm[k][0]; ky = layerPerm[k][1]; kz = layerPerm[k][2]; }
+        s.permx.push_back(kx); s.permy.push_back(ky); s.permz.push_back(kz);
+        s.ntg.push_back(r.coin(1, 5) ? 1.0 : uni(r, 0.1, 1.0));
+        s.poro.push_back(uni(r, 0.05, 0.4));
+        s.actnum.push_back(r.coin(1, 10) ? 0 : 1);
+    }
+    s.actnum[0] = 1;
+    s.cpg = r.coin();
+    if (s.cpg) {
+        std::vector<double> xs{ 0.0 }, ys{ 0.0 }, zs{ s.tops };
+        for (double v : s.dxv) xs.push_back(xs.back() + v);
+        for (double v : s.dyv) ys.push_back(ys.back() + v);
+        for (double v : s.dzv) zs.push_back(zs.back() + v);
+        const double fx = logU(r, 0.5, 2.0), fy = logU(r, 0.5, 2.0);                       // fan: the column widens / narrows with depth
+        const double shx = uni(r, -0.5, 0.5) * xs.back(), shy = uni(r, -0.5, 0.5) * ys.back();   // shear
+        const double jx = 0.15 * *std::min_element(s.dxv.begin(), s.dxv.end()), jy = 0.15 * *std::min_element(s.dyv.begin(), s.dyv.end());
+        const bool vertical = r.coin(1, 6);      // sometimes plain vertical pillars
+        for (int j = 0; j <= s.ny; ++j) for (int i = 0; i <= s.nx; ++i) {
+            const double xt = xs[i], yt = ys[j];
+            double xb = xs.back() / 2 + (xt - xs.back() / 2) * fx + shx + uni(r, -1, 1) * jx;
+            double yb = ys.back() / 2 + (yt - ys.back() / 2) * fy + shy + uni(r, -1, 1) * jy;
+            if (vertical) { xb = xt; yb = yt; }
+            for (double v : { xt, yt, zs.front(), xb, yb, zs.back() }) s.coord.push_back(v);
+        }
+        for (int k = 0; k < s.nz; ++k) for (int c = 0; c < 2; ++c)
+            for (int q = 0; q < 4 * s.nx * s.ny; ++q) s.zcorn.push_back(zs[k + c]);
+    }
+    return s;
+}
+
+// One K1..K2 record on well `wA`, the same layers as one-layer records on the twin well `wB` (same head, same
+// COMPORD); `pre`: earlier one-layer records (both wells) so that some layers are re-entered, others new.
+struct LayerCase {
+    Rec rec; int i, j, k1, k2;           // 0-based column and layer range
+    int mask; std::string wA, wB, ord;
+    std::vector<Rec> pre;
+    std::vector<size_t> recIdxA;         // indices of this well's records (pre..., main) among all COMPDAT records of the deck
+};
+struct LayerDeck { Scenario s; std::vector<LayerCase> cases; std::string text; };
+
+// Items of a record that covers the active layers `ks` of column (i,j): conditioned on all of them
+// (rw below the smallest Peaceman radius, ln(r0/rw) + S >= 0.3 in every layer, sane exponent on the Kh = 0 path)
+void fillItemsLayers(vh::Rng& r, const Scenario& s, Rec& rec, int i, int j, const std::vector<int>& ks, int mask) {
+    const bool mCF = mask & 1, mKh = mask & 2, mD = mask & 4, mR0 = mask & 8;
+    double r0min = 1e300, khmax = 0;
+    for (int k : ks) { r0min = std::min(r0min, estR0(s, i, j, k, rec.dir)); khmax = std::max(khmax, estKh(s, i, j, k, rec.dir)); }
+    double rw = 0.1524;
+    if (mD) {
+        rw = std::min(r0min * logU(r, 0.01, 0.6), 2.0);
+        const double dval = 2 * rw / s.u.L;
+        rec.diam = num(dval); rw = dval * s.u.L / 2; rec.diamGiven = true;
+    }
+    const bool both = mCF && mKh;
+    const int khVariant = (int) r.below(4);
+    const bool willKhZero = !mKh && khVariant == 3;
+    double rho;     // smallest r0 / rw over the layers
+    if (mR0) {
+        rho = logU(r, 1.5, 2000);
+        const double v = rho * rw / s.u.L;
+        rec.pr = num(v); rho = v * s.u.L / rw; rec.r0Given = true;
+        if (r.coin(1, 16)) { rec.pr = num(-uni(r, 0.1, 5)); rec.r0Given = false; rho = r0min / rw; }
+    } else if (both) rho = logU(r, 1.5, 2000);
+    else rho = r0min / rw;
+    if (rho <= 1.0) rec.boundary = true;
+    const double lr = std::log(std::max(rho, 1.0));
+    double S;
+    switch (r.below(5)) {
+        case 0: S = 0.0; rec.skin = r.coin() ? "1*" : "0"; break;
+        case 1: S = -std::min(3.0, std::max(0.0, 0.8 * lr - 0.3)) * r.unit(); rec.skin = num(S); break;
+        default: S = uni(r, 0.0, 20.0); rec.skin = num(S); break;
+    }
+    if (lr + S < 0.3) { S = 0.3 - lr + uni(r, 0, 2); rec.skin = num(S); }
+    const double dd = lr + S;
+    if (mCF) {
+        double cf = logU(r, 1e-3, 1e3) * 1.1574e-13 / s.u.CF;
+        if (willKhZero) cf = 6.283185307179586 * khmax / uni(r, 0.5, 25.0) / s.u.CF;
+        rec.cf = num(cf); rec.cfPos = true;
+        if (!both && r.coin(1, 10)) { rec.cf = r.coin() ? "0" : num(-cf); rec.cfPos = false; }
+        if (mKh) { rec.kh = num(cf * s.u.CF * std::max(dd, 0.3) / 6.283185307179586 / s.u.KH); rec.khPos = true; }
+    }
+    if (mKh && !rec.khPos) { rec.kh = num(logU(r, 1e-1, 1e5)); rec.khPos = true; }
+    if (!mKh) {
+        switch (khVariant) {
+            case 0: rec.kh = "1*"; break;
+            case 1: rec.kh = num(-uni(r, 0.5, 3)); break;
+            case 2: rec.kh = "-1"; break;
+            default: rec.kh = "0"; rec.khZero = true; break;
+        }
+    }
+}
+
+std::string layerDeckText(const LayerDeck& d) {
+    std::string sch = "WELSPECS\n";
+    for (const auto& c : d.cases)
+        for (const auto& w : { c.wA, c.wB })
+            sch += " '" + w + "' 'G' " + std::to_string(c.i + 1) + " " + std::to_string(c.j + 1) + " 1* 'OIL' /\n";
+    sch += "/\nCOMPORD\n";
+    for (const auto& c : d.cases) for (const auto& w : { c.wA, c.wB }) sch += " '" + w + "' " + c.ord + " /\n";
+    sch += "/\n";
+    for (const auto& c : d.cases) {
+        sch += "COMPDAT\n";
+        for (const auto& p : c.pre) sch += p.text();
+        sch += c.rec.text();
+        // the twin: the same layers one record each, in order
+        for (auto p : c.pre) { p.well = c.wB; sch += p.text(); }
+        for (int k = c.k1; k <= c.k2; ++k) { Rec q = c.rec; q.well = c.wB; q.K1 = q.K2 = k + 1; sch += q.text(); }
+        sch += "/\n";
+    }
+    sch += "TSTEP\n 1 /\nEND\n";
+    return gridSection(d.s) + sch;
+}
+
+LayerDeck makeLayerDeck(vh::Rng& r, int maxz, int& counter) {
+    LayerDeck d;
+    d.s = makeLayeredScenario(r, maxz);
+    const Scenario& s = d.s;
+    const int ncases = r.range(2, 5);
+    size_t recCount = 0;
+    for (int n = 0; n < ncases; ++n) {
+        LayerCase c;
+        c.i = r.range(0, s.nx - 1); c.j = r.range(0, s.ny - 1);
+        c.k1 = r.range(0, s.nz - 2); c.k2 = r.range(c.k1 + 1, s.nz - 1);
+        std::vector<int> ks;
+        for (int k = c.k1; k <= c.k2; ++k) if (s.actnum[s.gi(c.i, c.j, k)]) ks.push_back(k);
+        if (ks.size() < 2) continue;
+        c.mask = counter % 16;
+        c.rec.dir = "XYZ"[(counter / 16) % 3];
+        ++counter;
+        if (r.coin(1, 5)) c.rec.dir = "XYZ"[r.below(3)];
+        c.wA = "L" + std::to_string(n) + "A"; c.wB = "L" + std::to_string(n) + "B";
+        c.ord = r.pick(std::vector<std::string>{ "INPUT", "TRACK", "DEPTH" });
+        c.rec.well = c.wA;
+        c.rec.I = c.i + 1; c.rec.J = c.j + 1; c.rec.K1 = c.k1 + 1; c.rec.K2 = c.k2 + 1;
+        if (r.coin(1, 4)) { c.rec.I = 0; c.rec.ijStar = r.coin(); }      // I defaulted: the well head
+        if (r.coin(1, 4) && !(c.rec.I == 0 && c.rec.ijStar)) c.rec.J = 0;
+        c.rec.state = r.pick(std::vector<std::string>{ "OPEN", "OPEN", "SHUT", "AUTO" });
+        fillItemsLayers(r, s, c.rec, c.i, c.j, ks, c.mask);
+        if (r.coin(1, 3)) {
+            const int npre = r.range(1, 2);
+            for (int q = 0; q < npre; ++q) {
+                const int k = r.range(0, s.nz - 1);
+                if (!s.actnum[s.gi(c.i, c.j, k)]) continue;
+                Rec p; p.well = c.wA; p.I = c.i + 1; p.J = c.j + 1; p.K1 = p.K2 = k + 1;
+                p.dir = "XYZ"[r.below(3)]; p.state = r.pick(std::vector<std::string>{ "OPEN", "SHUT" });
+                fillItems(r, s, p, c.i, c.j, k, (int) r.below(16), false);
+                c.pre.push_back(p);
+            }
+        }
+        for (size_t q = 0; q <= c.pre.size(); ++q) c.recIdxA.push_back(recCount + q);
+        recCount += 2 * c.pre.size() + 1 + (size_t) (c.k2 - c.k1 + 1);
+        d.cases.push_back(c);
+    }
+    d.text = layerDeckText(d);
+    return d;
+}
+
+// Fixed first layered deck (every seed): a 2 x 2 x 3 METRIC grid with DZ 10 / 20 / 40 and PERMY 100 / 25 / 400 by
+// layer (PERMX 100, PERMZ 10): one fully defaulted record K = 1..3 along Z (the Kx/Ky ratio changes with depth) and
+// one along X (DZ and Ky/Kz change with depth).
+LayerDeck fixedLayerDeck() {
+    LayerDeck d;
+    Scenario& s = d.s;
+    s.u = UNITS[0]; s.nx = s.ny = 2; s.nz = 3;
+    s.dxv = { 100, 100 }; s.dyv = { 150, 150 }; s.dzv = { 10, 20, 40 }; s.tops = 2000; s.hasNtg = false;
+    const double py[3] = { 100, 25, 400 };
+    for (int g = 0; g < 12; ++g) { s.permx.push_back(100); s.permy.push_back(py[g / 4]); s.permz.push_back(10); s.ntg.push_back(1); s.poro.push_back(0.25); s.actnum.push_back(1); }
+    int n = 0;
+    for (char dir : { 'Z', 'X' }) {
+        LayerCase c;
+        c.i = n; c.j = n; c.k1 = 0; c.k2 = 2; c.mask = 4; c.ord = "TRACK";
+        c.wA = "L" + std::to_string(n) + "A"; c.wB = "L" + std::to_string(n) + "B";
+        c.rec.well = c.wA; c.rec.I = c.i + 1; c.rec.J = c.j + 1; c.rec.K1 = 1; c.rec.K2 = 3; c.rec.dir = dir;
+        c.rec.diam = "0.2"; c.rec.diamGiven = true; c.rec.skin = "-0.5";
+        c.recIdxA.push_back((size_t) n * 4);
+        d.cases.push_back(c);
+        ++n;
+    }
+    d.text = layerDeckText(d);
+    return d;
+}
+
+// --- the oracle: text-book values of one layer, sharing nothing with the library (nor with the Lean model) ---
+
+// SI factors from the definitions of the units (not from Opm::UnitSystem)
+struct OracleUnits { long double L, mD, KH, CF; };
+OracleUnits oracleUnits(const std::string& name) {
+    const long double atm = 101325.0L, bar = 1e5L, day = 86400.0L, hour = 3600.0L, inch = 0.0254L, ft = 12 * inch;
+    const long double psi = 0.45359237L * 9.80665L / (inch * inch);        // pound-force per square inch
+    const long double stb = 42.0L * 231.0L * inch * inch * inch;           // 42 US gallons of 231 cubic inches
+    const long double cP = 1e-3L;
+    const long double darcy = cP * 1e-4L / atm;                             // 1 cP cm^2 / (atm s)
+    OracleUnits o{};
+    o.mD = 1e-3L * darcy;
+    if (name == "METRIC")     { o.L = 1;     o.CF = cP / (day * bar); }           // cP rm3 / (day bar)
+    else if (name == "FIELD") { o.L = ft;    o.CF = cP * stb / (day * psi); }     // cP rb / (day psi)
+    else if (name == "LAB")   { o.L = 1e-2L; o.CF = cP * 1e-6L / (hour * atm); }  // cP rcc / (hr atm)
+    else                      { o.L = 1;     o.CF = cP / (day * atm); }           // PVT-M: cP rm3 / (day atm)
+    o.KH = o.mD * o.L;
+    return o;
+}
+
+struct OracleLayer {
+    long double CF, Kh, r0, rw, denom;    // expected stored values (SI)
+    bool cfKnown, khKnown;                 // false for the quantity derived through ln(r0/rw) in the clamp region r0 <= rw (outside the property's quantifier)
+    long double tol;                       // relative tolerance: 1e-12 + conditioning of the geometry (see below)
+    long double r0cell, khcell;
+};
+
+// Peaceman's values for the cell (i,j,k) of the scenario as the generator wrote it (deck arrays, own unit factors)
+OracleLayer oracleLayer(const Scenario& s, const OracleUnits& ou, const Rec& rec, int i, int j, int k) {
+    const int g = s.gi(i, j, k);
+    const auto dd = s.dimsDeck(i, j, k);
+    const long double dx = dd[0] * ou.L, dy = dd[1] * ou.L, hz = dd[2] * ou.L * (s.hasNtg ? (long double) s.ntg[g] : 1.0L);
+    const long double kx = s.permx[g] * ou.mD, ky = s.permy[g] * ou.mD, kz = s.permz[g] * ou.mD;
+    long double ka, kb, da, db, h;
+    if (rec.dir == 'X')      { ka = ky; kb = kz; da = dy; db = hz; h = dx; }
+    else if (rec.dir == 'Y') { ka = kx; kb = kz; da = dx; db = hz; h = dy; }
+    else                     { ka = kx; kb = ky; da = dx; db = dy; h = hz; }
+    OracleLayer o{};
+    o.khcell = sqrtl(ka * kb) * h;
+    o.r0cell = 0.28L * sqrtl(sqrtl(kb / ka) * da * da + sqrtl(ka / kb) * db * db) / (powl(ka / kb, 0.25L) + powl(kb / ka, 0.25L));
+    auto item = [](const std::string& t) { return (long double) std::strtod(t.c_str(), nullptr); };
+    const long double S = rec.skin == "1*" ? 0.0L : item(rec.skin);
+    o.rw = rec.diamGiven ? item(rec.diam) * ou.L / 2 : 0.1524L;
+    const long double cfIn = rec.cfPos ? item(rec.cf) * ou.CF : 0, khIn = rec.khPos ? item(rec.kh) * ou.KH : 0;
+    const long double r0In = rec.r0Given ? item(rec.pr) * ou.L : o.r0cell;    // item 14 or Peaceman's radius of THIS cell
+    o.cfKnown = o.khKnown = true;
+    long double amp = 1;      // amplification of a relative input error
+    if (rec.cfPos && rec.khPos) {
+        o.CF = cfIn; o.Kh = khIn;
+        o.r0 = rec.r0Given ? r0In : o.rw * expl(TWO_PI * khIn / cfIn - S);
+        amp += fabsl(TWO_PI * khIn / cfIn);
+    } else if (rec.khPos) {
+        o.Kh = khIn; o.r0 = r0In; o.denom = logl(r0In / o.rw) + S; o.CF = TWO_PI * khIn / o.denom;
+        o.cfKnown = r0In > o.rw; amp += (fabsl(logl(r0In / o.rw)) + fabsl(S) + 1) / fabsl(o.denom);
+    } else if (rec.cfPos && rec.khZero) {
+        o.CF = cfIn; o.Kh = o.khcell; o.r0 = o.rw * expl(TWO_PI * o.khcell / cfIn - S);
+        amp += fabsl(TWO_PI * o.khcell / cfIn) + fabsl(S);
+    } else if (rec.cfPos) {
+        o.CF = cfIn; o.r0 = r0In; o.denom = logl(r0In / o.rw) + S; o.Kh = cfIn * o.denom / TWO_PI;
+        o.khKnown = r0In > o.rw; amp += (fabsl(logl(r0In / o.rw)) + fabsl(S) + 1) / fabsl(o.denom);
+    } else {
+        o.Kh = o.khcell; o.r0 = r0In; o.denom = logl(r0In / o.rw) + S; o.CF = TWO_PI * o.khcell / o.denom;
+        o.cfKnown = r0In > o.rw; amp += (fabsl(logl(r0In / o.rw)) + fabsl(S) + 1) / fabsl(o.denom);
+    }
+    // The library holds the grid as corner coordinates in double: a cell extent is a difference of coordinates, known
+    // to a few ulp of the *coordinate*.  Relative to the extent: eps * |coordinate| / extent.
+    long double cmax[3] = { 0, 0, 0 };
+    if (s.cpg) { for (size_t q = 0; q < s.coord.size(); ++q) cmax[q % 3] = std::max(cmax[q % 3], fabsl((long double) s.coord[q])); }
+    else {
+        for (double v : s.dxv) cmax[0] += v;
+        for (double v : s.dyv) cmax[1] += v;
+        cmax[2] = s.tops; for (double v : s.dzv) cmax[2] += v;
+    }
+    const long double eps = 2.220446049250313e-16L;
+    const long double geom = 8 * eps * (cmax[0] / dd[0] + cmax[1] / dd[1] + (cmax[0] + cmax[1]) / std::min(dd[0], dd[1]) * (s.cpg ? 1 : 0) + cmax[2] / dd[2]);
+    o.tol = (1e-12L + geom) * amp;
+    return o;
+}
+
 } // namespace
 
 int main(int argc, char** argv) {
@@ -739,6 +1062,56 @@ int main(int argc, char** argv) {
                 sink.count("seq.conns", (long) conns.size());
             }
             for (const auto& ops : d.steps) for (const auto& op : ops) sink.count(std::string("seq.op.") + op.kind);
+        }
+        // (3) records over several layers: all 16 masks x 3 directions on layered / corner-point columns
+        {
+            int counter = (int) rng.below(48);
+            const int nlay = thorough ? 2500 : 200;
+            for (int n = 0; n < nlay; ++n) {
+                LayerDeck d = (n == 0) ? fixedLayerDeck() : makeLayerDeck(rng, thorough ? 8 : 6, counter);
+                if (d.cases.empty()) continue;
+                std::unique_ptr<Loaded> l;
+                try { l = load(d.text); }
+                catch (const std::exception& e) { std::cerr << "generated deck rejected: " << e.what() << "\n" << d.text; return 3; }
+                const auto recs = recordsOf(l->deck, "COMPDAT");
+                std::string cells;
+                for (int k = 0; k < d.s.nz; ++k) for (int j = 0; j < d.s.ny; ++j) for (int i = 0; i < d.s.nx; ++i) {
+                    auto cd = cellData(*l->es, i, j, k);
+                    if (!cd.active) { cd.kx = cd.ky = cd.kz = cd.ntg = 0; }
+                    cells += std::string(" ") + (cd.active ? "1" : "0") + " " + cellTokens(cd) + " " + vh::hexF64(cd.depth);
+                }
+                for (const auto& c : d.cases) {
+                    std::string line = "conns.seq " + c.ord + " " + std::to_string(c.i) + " " + std::to_string(c.j) + " " +
+                                       std::to_string(d.s.nx) + " " + std::to_string(d.s.ny) + " " + std::to_string(d.s.nz) + cells;
+                    line += " " + std::to_string(c.recIdxA.size() + 1);
+                    for (size_t q : c.recIdxA) {
+                        const auto& rec = *recs.at(q);
+                        const auto& I = rec.getItem("I"); const auto& J = rec.getItem("J");
+                        line += " C " + std::to_string(I.defaultApplied(0) ? 0 : I.get<int>(0)) + " " + std::to_string(J.defaultApplied(0) ? 0 : J.get<int>(0)) + " " +
+                                std::to_string(rec.getItem("K1").get<int>(0)) + " " + std::to_string(rec.getItem("K2").get<int>(0)) + " " +
+                                rec.getItem("STATE").getTrimmedString(0) + " " + inputTokens(rec);
+                    }
+                    line += " E";
+                    const auto& conns = l->sched->getWell(c.wA, 0).getConnections();
+                    int pert = -1; std::string expect = "ok"; size_t which = 0;
+                    if (conns.size() > 0 && rng.coin(1, 30)) {
+                        pert = 0; which = rng.below(conns.size());
+                        const double cfw = conns.get(which).CF();
+                        if (!std::isfinite(cfw) || cfw == 0.0) pert = -1;
+                        else { expect = "differs " + std::to_string(which) + " CF"; sink.count("layers.negative_control"); }
+                    }
+                    line += " " + std::to_string(conns.size());
+                    size_t idx = 0;
+                    for (const auto& cn : conns) { line += " " + connTokens(cn, idx == which ? pert : -1); ++idx; }
+                    sink.emit(line, expect);
+                    sink.count("layers.lines");
+                    sink.count("layers.mask." + std::to_string(c.mask));
+                    sink.count(std::string("layers.dir.") + c.rec.dir);
+                    sink.count(std::string("layers.grid.") + (d.s.cpg ? "cornerpoint" : "dxv"));
+                    sink.count("layers.branch." + c.rec.branch());
+                    sink.count("layers.conns", (long) conns.size());
+                }
+            }
         }
         sink.writeStats(outdir + "/stats.json");
         return 0;
@@ -950,6 +1323,100 @@ int main(int argc, char** argv) {
                 prev = cur;
             }
             if (log.failed != failedBefore) vh::spit(outdir + "/failing_history_" + std::to_string(n) + ".DATA", d.text);   // the concrete input
+        }
+        // (P5) records over several layers (K1 < K2): every layer's stored CF / Kh / r0 against the text-book value
+        // of ITS OWN cell, computed from the arrays the generator wrote (own unit factors, own cell extents - also
+        // from COORD/ZCORN -, long double); and the record K1..K2 against the same layers entered one record each
+        {
+            int counter = (int) rng.below(48);
+            long maxRelE16 = 0, maxOverTolPct = 0;
+            const int nlay = thorough ? 4000 : 300;
+            for (int n = 0; n < nlay; ++n) {
+                LayerDeck d = (n == 0) ? fixedLayerDeck() : makeLayerDeck(rng, thorough ? 8 : 6, counter);
+                if (d.cases.empty()) continue;
+                std::unique_ptr<Loaded> l;
+                try { l = load(d.text); }
+                catch (const std::exception& e) { std::cerr << "generated deck rejected: " << e.what() << "\n" << d.text; return 3; }
+                const OracleUnits ou = oracleUnits(d.s.u.name);
+                const long failedBefore = log.failed;
+                const std::string file = "failing_layers_" + std::to_string(n) + ".DATA";
+                for (const auto& c : d.cases) {
+                    const auto& A = l->sched->getWell(c.wA, 0).getConnections();
+                    const auto& B = l->sched->getWell(c.wB, 0).getConnections();
+                    std::string rtxt = c.rec.text(); rtxt.pop_back();
+                    const std::string where = "deck=" + outdir + "/" + file + " unit=" + d.s.u.name + " grid=" + (d.s.cpg ? "cornerpoint" : "dxv") + " branch=" + c.rec.branch() + " rec=" + rtxt;
+                    ++stats["layers.records"]; ++stats["layers.mask." + std::to_string(c.mask)]; ++stats[std::string("layers.dir.") + c.rec.dir];
+                    ++stats[std::string("layers.grid.") + (d.s.cpg ? "cornerpoint" : "dxv")];
+                    long double r0lo = 1e300L, r0hi = 0;
+                    for (int k = c.k1; k <= c.k2; ++k) {
+                        const Connection* cn = findConn(A, c.i, c.j, k);
+                        const std::string lay = " layer=" + std::to_string(k + 1) + " ";
+                        if (!d.s.actnum[d.s.gi(c.i, c.j, k)]) {
+                            bool preHere = false;
+                            for (const auto& p : c.pre) if (p.K1 == k + 1) preHere = true;
+                            if (cn && !preHere) log.fail("layers.inactive-connected", where + lay);
+                            log.ok(); ++stats["layers.inactive"];
+                            continue;
+                        }
+                        if (!cn) { log.fail("layers.missing", where + lay); continue; }
+                        const OracleLayer o = oracleLayer(d.s, ou, c.rec, c.i, c.j, k);
+                        r0lo = std::min(r0lo, o.r0cell); r0hi = std::max(r0hi, o.r0cell);
+                        const int g = d.s.gi(c.i, c.j, k);
+                        const auto dd = d.s.dimsDeck(c.i, c.j, k);
+                        const std::string cell = "cell(deck units) DX=" + num((double) dd[0]) + " DY=" + num((double) dd[1]) + " DZ=" + num((double) dd[2]) + " PERMX=" + num(d.s.permx[g]) +
+                                                 " PERMY=" + num(d.s.permy[g]) + " PERMZ=" + num(d.s.permz[g]) + " NTG=" + num(d.s.hasNtg ? d.s.ntg[g] : 1.0) + " ";
+                        auto cmp = [&](const char* key, long double got, long double want) {
+                            if (!relClose(got, want, o.tol))
+                                log.fail(std::string("layers.") + key, where + lay + std::string(key) + " stored=" + num((double) got) + " textbook(own cell)=" + num((double) want) +
+                                         " rel=" + num((double) ((got - want) / want)) + " " + cell);
+                            log.ok(); ++stats[std::string("layers.checked.") + key];
+                            if (want != 0 && std::isfinite((double) got)) {      // observed slack, for the record
+                                const long double rel = fabsl((got - want) / want);
+                                maxRelE16 = std::max(maxRelE16, (long) std::min(rel / 1e-16L, 1e15L));
+                                maxOverTolPct = std::max(maxOverTolPct, (long) std::min(100 * rel / o.tol, 1e15L));
+                            }
+                        };
+                        cmp("r0", cn->r0(), o.r0);
+                        if (o.khKnown) cmp("Kh", cn->Kh(), o.Kh); else ++stats["layers.Kh_skipped_r0_le_rw"];
+                        if (o.cfKnown) cmp("CF", cn->CF(), o.CF); else ++stats["layers.CF_skipped_r0_le_rw"];
+                        if (!relClose(cn->rw(), o.rw, 1e-15L)) log.fail("layers.rw", where + lay);
+                        if (dirName(cn->dir())[0] != c.rec.dir || std::string(stateName(cn->state())) != c.rec.state) log.fail("layers.dir-state", where + lay);
+                        // the defaulted quantities by themselves (the clause "every defaulted quantity equals its Peaceman value")
+                        if (!c.rec.khPos && (!c.rec.cfPos || c.rec.khZero)) ++stats["layers.default.Kh"];
+                        if (!c.rec.r0Given && !(c.rec.cfPos && (c.rec.khPos || c.rec.khZero))) ++stats["layers.default.r0"];
+                        // the Peaceman relation on the stored values of this layer
+                        const long double CF = cn->CF(), Kh = cn->Kh(), r0 = cn->r0(), rw = cn->rw(), S = cn->skinFactor();
+                        if (r0 > rw && std::isfinite((double) CF) && std::isfinite((double) r0)) {
+                            const long double lg = logl(r0 / rw), lhs = CF * (lg + S), rhs = TWO_PI * Kh;
+                            const long double scale = fabsl(CF) * (fabsl(lg) + fabsl(S)) + fabsl(rhs);
+                            if (fabsl(lhs - rhs) > 1e-12L * scale + 8 * 2.220446049250313e-16L * fabsl(CF))
+                                log.fail("layers.identity", where + lay + "lhs=" + num((double) lhs) + " rhs=" + num((double) rhs));
+                            log.ok(); ++stats["layers.identity.checked"];
+                        }
+                    }
+                    if (r0hi > 1.01L * r0lo) ++stats["layers.records_with_r0_varying_by_layer"];
+                    // one record K1..K2 == the layers entered one record each, in order: same connections, bit for bit
+                    const auto a = snapshot(A), b = snapshot(B);
+                    bool same = a.size() == b.size();
+                    std::string diff = same ? "" : "number of connections " + std::to_string(a.size()) + " vs " + std::to_string(b.size());
+                    for (size_t p = 0; same && p < a.size(); ++p) {
+                        const Snap &x = a[p], &y = b[p];
+                        auto fld = [&](const char* name, bool eq) { if (!eq && same) { same = false; diff = "pos=" + std::to_string(p) + " cell=" + snapKey(x) + " field=" + name; } };
+                        fld("cell", x.i == y.i && x.j == y.j && x.k == y.k); fld("complnum", x.complnum == y.complnum); fld("sort", x.sort == y.sort);
+                        fld("state", x.state == y.state); fld("dir", x.dir == y.dir); fld("kind", x.fromDeck == y.fromDeck);
+                        if (same && !Snap::eq(x.CF, y.CF)) { same = false; diff = "pos=" + std::to_string(p) + " cell=" + snapKey(x) + " CF " + num(x.CF) + " (K1..K2) vs " + num(y.CF) + " (per layer)"; }
+                        if (same && !Snap::eq(x.r0, y.r0)) { same = false; diff = "pos=" + std::to_string(p) + " cell=" + snapKey(x) + " r0 " + num(x.r0) + " (K1..K2) vs " + num(y.r0) + " (per layer)"; }
+                        if (same && !Snap::eq(x.Kh, y.Kh)) { same = false; diff = "pos=" + std::to_string(p) + " cell=" + snapKey(x) + " Kh " + num(x.Kh) + " (K1..K2) vs " + num(y.Kh) + " (per layer)"; }
+                        fld("rw", Snap::eq(x.rw, y.rw)); fld("skin", Snap::eq(x.skin, y.skin)); fld("wpimult", Snap::eq(x.wpimult, y.wpimult));
+                        fld("depth", Snap::eq(x.depth, y.depth)); fld("Ke", Snap::eq(x.Ke, y.Ke)); fld("connLen", Snap::eq(x.connLen, y.connLen));
+                    }
+                    if (!same) log.fail("layers.split", where + " " + diff);
+                    log.ok(); ++stats["layers.split.checked"];
+                }
+                if (log.failed != failedBefore) vh::spit(outdir + "/" + file, d.text);   // the concrete input
+            }
+            stats["layers.max_rel_deviation_in_1e-16"] = maxRelE16;
+            stats["layers.max_deviation_percent_of_tolerance"] = maxOverTolPct;
         }
         std::ofstream st(outdir + "/prop_stats.json");
         st << "{\n  \"checked\": " << log.checked << ",\n  \"failed\": " << log.failed;
